@@ -269,8 +269,7 @@ pub fn run(ctx: &mut Ctx) {
         BFS, DFS, on-demand, simulation (several seeds) and DFS+symmetry on mirror-symmetric graphs; all six \
         HasDiscoveries variants; threads in {1,2,4}. Every returned path is re-validated step by step against \
         the graph. Non-trivial: the runs of the case returned at least one discovery for a path with >=1 \
-        transition and the model has >=2 properties."
-        .into();
+        transition and the model has >=2 properties. Additional sub-checks: half of the on-demand runs issue step-wise requests first; a fifth of the exhaustive runs carry a depth limit; (unequal_routes) a long and a short route to a join, the short one through the only state satisfying an eventually-property, long route requested first; simulation with the mirror symmetry (visitor paths and discoveries); (interrupted_by_timeout) subprocess runs on an endless chain / 2^40 tree cut by a 1 s timeout - whatever is reported must be a maximal path.".into();
     let ctx = &*ctx;
     ctx.cases("paths", ctx.n(2500, 40000), 0, |case| {
         let mut g = gen_graph(&mut case.rng, &Knobs::default());
